@@ -25,6 +25,42 @@ type c11Case struct {
 	// extras and the query point different ones; 2 = the vertices' extras repeat coordinates of the
 	// next vertex
 	Tags int `json:"tags,omitempty"`
+	// Gen names a generated ring instead of spelling it out: "tower/<n>/<rev>/<rot>" (c11Tower).
+	Gen string `json:"gen,omitempty"`
+}
+
+// c11Tower: a tall zig-zag ring of 2n+3 coordinates. Its right side climbs through
+// (10 + 2(i mod 2), 2i), i = 0..n, its left side comes down through (-2(i mod 2), 2i); the ring
+// is then reversed (rev = 1) and rotated by rot vertices before it is closed. At every odd
+// height y = 2i+1 the ray to the right of (5, y) crosses exactly edge i of the right side, the
+// ray of (-5, y) edge i of both sides, and (11, y), (-1, y) are the middles of those two edges.
+func c11Tower(n, rev, rot int) []ref.F {
+	var vs [][2]float64
+	for i := 0; i <= n; i++ {
+		vs = append(vs, [2]float64{float64(10 + 2*(i%2)), float64(2 * i)})
+	}
+	for i := n; i >= 0; i-- {
+		vs = append(vs, [2]float64{float64(-2 * (i % 2)), float64(2 * i)})
+	}
+	if rev == 1 {
+		for i, j := 0, len(vs)-1; i < j; i, j = i+1, j-1 {
+			vs[i], vs[j] = vs[j], vs[i]
+		}
+	}
+	out := make([]ref.F, 0, 2*len(vs)+2)
+	for k := 0; k <= len(vs); k++ {
+		v := vs[(k+rot)%len(vs)]
+		out = append(out, ref.F(v[0]), ref.F(v[1]))
+	}
+	return out
+}
+
+func c11GenRing(gen string) []ref.F {
+	var n, rev, rot int
+	if _, err := fmt.Sscanf(gen, "tower/%d/%d/%d", &n, &rev, &rot); err != nil {
+		panic("c11: bad gen " + gen)
+	}
+	return c11Tower(n, rev, rot)
 }
 
 func init() {
@@ -60,6 +96,9 @@ func flatWithLayout(v []ref.F, l geom.Layout) []float64 {
 
 func c11Exec(c *engine.Ctx, cs c11Case) {
 	c.Count("evaluations", 1)
+	if cs.Gen != "" {
+		cs.Ring = c11GenRing(cs.Gen)
+	}
 	pts := toP2(cs.Ring)
 	p := ref.P2{X: float64(cs.P[0]), Y: float64(cs.P[1])}
 	flat := flatWithLayout(cs.Ring, cs.Layout)
@@ -90,7 +129,11 @@ func c11Exec(c *engine.Ctx, cs c11Case) {
 		}
 	}
 	fail := func(what, desc string) {
-		c.Violate(cs.Mode+"/"+what, fmt.Sprintf("%s; points=%v p=%v layout=%v", desc, cs.Ring, cs.P, cs.Layout), "c11", cs)
+		vc := cs
+		if cs.Gen != "" {
+			vc.Ring = nil
+		}
+		c.Violate(cs.Mode+"/"+what, clipStr(fmt.Sprintf("%s; points=%s%v p=%v layout=%v", desc, cs.Gen, cs.Ring, cs.P, cs.Layout), 2500), "c11", vc)
 	}
 	switch cs.Mode {
 	case "ring":
@@ -151,6 +194,9 @@ func c11Exec(c *engine.Ctx, cs c11Case) {
 			c.Count("off_line", 1)
 		}
 		c.DistinctStr(fmt.Sprint("L", cs.Ring, cs.P, cs.Layout))
+	}
+	if cs.Gen != "" {
+		cs.Ring = nil
 	}
 	c.Sample(cs.Mode, 3, cs)
 }
@@ -425,6 +471,66 @@ func c11Run(c *engine.Ctx) {
 	for _, k := range []string{"location_Interior", "location_Boundary", "location_Exterior", "on_line", "off_line"} {
 		if c.Get(k) == 0 {
 			c.Warn("vacuous: class " + k + " is empty")
+		}
+	}
+	// very large rings (beyond any block size a divided scan might use): the zig-zag tower of
+	// c11Tower, queried at every odd height inside, left and right of it and in the middle of both
+	// edges at that height, plus the middles of the bottom and top edges; both directions and three
+	// start vertices. One library call per query against the answer known by construction (the
+	// construction itself is checked against the exact rule on the small towers first); a
+	// disagreement goes through c11Exec for the exact verdict.
+	towerNs := []int{2050, 4200, 10000}
+	if c.Thorough() {
+		towerNs = append(towerNs, 33000)
+	}
+	c.Note("tower_rings_coordinates", fmt.Sprint(towerNs))
+	towerQueries := func(n, i int) ([][2]float64, []location.Type) {
+		y := float64(2*i + 1)
+		qs := [][2]float64{{5, y}, {-5, y}, {15, y}, {11, y}, {-1, y}}
+		ws := []location.Type{location.Interior, location.Exterior, location.Exterior, location.Boundary, location.Boundary}
+		if i == 0 {
+			qs = append(qs, [2]float64{5, 0}, [2]float64{5, float64(2 * n)})
+			ws = append(ws, location.Boundary, location.Boundary)
+		}
+		return qs, ws
+	}
+	for _, n := range []int{1, 2, 3, 6} {
+		for rev := 0; rev < 2; rev++ {
+			for rot := 0; rot < 2*n+2; rot++ {
+				for i := 0; i < n; i++ {
+					qs, ws := towerQueries(n, i)
+					for k, q := range qs {
+						if ref.Locate(ref.P2{X: q[0], Y: q[1]}, toP2(c11Tower(n, rev, rot))) != int(ws[k]) {
+							panic(fmt.Sprintf("harness error: tower construction n=%d i=%d q=%v", n, i, q))
+						}
+						c11Exec(c, c11Case{Mode: "ring", Gen: fmt.Sprintf("tower/%d/%d/%d", n, rev, rot), P: []ref.F{ref.F(q[0]), ref.F(q[1])}, Layout: geom.XY})
+					}
+				}
+			}
+		}
+	}
+	for _, n := range towerNs {
+		n := n
+		for rev := 0; rev < 2; rev++ {
+			for _, rot := range []int{0, 1, n + 7} {
+				rev, rot := rev, rot
+				flat := flatWithLayout(c11Tower(n, rev, rot), geom.XY)
+				c.Parallel(n, func(i int) {
+					qs, ws := towerQueries(n, i)
+					for k, q := range qs {
+						c.Count("evaluations", 1)
+						c.Count("tower_ring_queries", 1)
+						got := xy.LocatePointInRing(geom.XY, geom.Coord{q[0], q[1]}, flat)
+						in := xy.IsPointInRing(geom.XY, geom.Coord{q[0], q[1]}, flat)
+						if got != ws[k] || in != (ws[k] != location.Exterior) {
+							c11Exec(c, c11Case{Mode: "ring", Gen: fmt.Sprintf("tower/%d/%d/%d", n, rev, rot), P: []ref.F{ref.F(q[0]), ref.F(q[1])}, Layout: geom.XY})
+						}
+					}
+				})
+				if c.Expired() {
+					break
+				}
+			}
 		}
 	}
 	exhaustiveRings()
